@@ -336,11 +336,15 @@ K.ghost("cellp(p)", "int", "cell_of(nrows, ncols, xll, yll, csz, xy_area[2*p], x
 # number of catchment cells p < n whose centre falls in coarse cell c
 K.ghost("cnt(c, n)", "int", "ite(n <= 0, 0, cnt(c, n - 1) + ite(cellp(n - 1) == c, 1, 0))", decreases="n")
 K.lemma("cnt_nonneg", "cnt(c, n) >= 0", fixed=["c"], var="n", lo="0", trigger="cnt(c, n)")
+# weight accumulated for coarse cell c by the first n catchment cells: one area ratio per centre (what the loop adds up) ...
+K.ghost("wsum(c, n)", "real", "ite(n <= 0, 0.0, wsum(c, n - 1) + ite(cellp(n - 1) == c, (csz_area/csz)*(csz_area/csz), 0.0))", decreases="n")
+# ... which is the number of centres times the ratio of cell areas (the form in which the property states it)
+K.lemma("wsum_is_count_times_ratio", "wsum(c, n) == (csz_area/csz)*(csz_area/csz)*real(cnt(c, n))", fixed=["c"], var="n", lo="0", trigger="wsum(c, n)")
 INTER_POST = [
     "0 <= {m} and {m} <= {n}",
     # each listed cell is a cell of the grid, holds at least one centre, and weighs (number of centres) x (ratio of cell areas)
     "forall(k, 0 <= k < {m}, valid_cell(nrows, ncols, idxcells[k]) and cnt(idxcells[k], {n}) >= 1 and "
-    "weights[k] == (csz_area/csz)*(csz_area/csz)*real(cnt(idxcells[k], {n})))",
+    "weights[k] == wsum(idxcells[k], {n}))",
     # each grid cell appears once
     "forall(k1, 0 <= k1 < {m}, forall(k2, k1 < k2 < {m}, idxcells[k1] != idxcells[k2]))",
     # every cell holding a centre is listed
@@ -349,6 +353,7 @@ INTER_POST = [
 K.ensures("result == 0")
 for e in INTER_POST:
     K.ensures(e.format(m="npoints[0]", n="nval"), props=["C16"])
+K.ensures("forall(k, 0 <= k < npoints[0], weights[k] == (csz_area/csz)*(csz_area/csz)*real(cnt(idxcells[k], nval)))", props=["C16"])
 K.loop(0, var="i", invariant=["0 <= i and i <= nval and j <= ncells and areafactor == (csz_area/csz)*(csz_area/csz) and not isnan(areafactor)"]
        + [e.format(m="j", n="i") for e in INTER_POST])
 K.loop(1, var="k", invariant=[
